@@ -552,6 +552,21 @@ class UnlimitedCollector(ScoredCollector):
 
 # Sorting collector
 
+def _none_last(item):
+    # Sort key for (sortkey, docnum) pairs: a facet key (or a part of a
+    # MultiFacet key) is None for documents without a value; those sort last,
+    # and None cannot be compared with other keys on Python 3
+    return _wrap_key(item[0]), item[1]
+
+
+def _wrap_key(key):
+    if key is None:
+        return (1,)
+    if isinstance(key, tuple):
+        return (0, tuple(_wrap_key(k) for k in key))
+    return (0, key)
+
+
 class SortingCollector(Collector):
     """A collector that returns results sorted by a given
     :class:`whoosh.sorting.Facet` object. See :doc:`/facets` for more
@@ -596,7 +611,7 @@ class SortingCollector(Collector):
 
     def results(self):
         items = self.items
-        items.sort(reverse=self.reverse)
+        items.sort(key=_none_last, reverse=self.reverse)
         if self.limit:
             items = items[:self.limit]
         return self._results(items, docset=self.docset)
